@@ -16,6 +16,14 @@ func propertyTable() map[string]PropertyCfg {
 				"sort.SliceStable: assumed contract (permutation, sorted, stable) for a comparator proved to be a strict weak order on the elements",
 			},
 		},
+		"C13": {ID: "C13",
+			Assumptions: []string{
+				"precondition wfRefs: map keys equal the ID of their (non-nil) value; every parent pointer of a defined style is the value defined under its ID (references resolve before the call)",
+				"closure + support characterise reachability through inheritance only on a forest of styles (first-order logic has no transitive closure); stated, not machine-checked",
+				"termination of the parent walk is not proved (no cardinality measure); the walk stops at already-marked styles, hence also on cyclic parent chains",
+			},
+			NotDecided: []string{"'the optimized list can still be written to every format and read back with the same cues' is codec fidelity (C01-C05): not decided", "idempotence is decided as a lemma harness over the contract when harness optimizeTwice is present"},
+		},
 		"C14": {ID: "C14",
 			Assumptions: []string{
 				"precondition: cue pointers non-nil and distinct, start <= end per cue, starts and ends non-decreasing, d >= 1ms (the property's quantifier)",
